@@ -158,19 +158,9 @@ context; a later `finally` of the same function stores the attribute back; the s
 context (which restores in its `finally`, see `iteratorOk`) -/
 def focusProtections : List String := ["copy", "finally", "focus-generator", "iterator"]
 
-/-- focus sites classified `unprotected` by the scan, read one by one (exact sites).
-C01's axis fixes (df7cdda / 1593003): the child axis of the dummy document and the following axis of an
-attribute / namespace item save, move and restore `context.item` / `context.axis` WITHOUT a `finally`.  Every
-caller inside the package drives these generators through a restoring one (`select_with_focus` of predicates, `!`
-and binary `/`; the `finally` of the unary `/`; `copy(context)` of function arguments), so no complete evaluation
-leaves the context moved (probed: `/child::*[error()]`, `@n/following::*[error()]`, `boolean(@n/following::*)` …);
-only a caller that abandons `token.select(ctx)` himself sees it.  Repaired with try/finally on branch fix-c05-7
-(pending): remove these four entries when it is picked. -/
-def reviewedFocusSites : List (String × String × String × String) := [
-  ("elementpath/xpath1/_xpath1_axes.py", "select__child_axis", "context.axis =", "unprotected"),
-  ("elementpath/xpath1/_xpath1_axes.py", "select__child_axis", "context.item =", "unprotected"),
-  ("elementpath/xpath1/_xpath1_axes.py", "select__following_axis", "context.axis =", "unprotected"),
-  ("elementpath/xpath1/_xpath1_axes.py", "select__following_axis", "context.item =", "unprotected")]
+/-- focus sites classified `unprotected` by the scan that were read one by one and found harmless (exact sites);
+none at present: every focus site of the package is protected structurally -/
+def reviewedFocusSites : List (String × String × String × String) := []
 
 def focusSiteOk (w : String × String × String × String) : Bool :=
   match w with
